@@ -333,6 +333,12 @@ def glue_builtins() -> None:
     agen = some_asyncgen()
     asend_type = type(agen.asend(None))
     athrow_type = type(agen.athrow(ValueError))
+    # ... and of the awaitable returned by the two-argument form of anext() (3.10+)
+    import builtins
+
+    anext_type: Optional[type] = None
+    if hasattr(builtins, "anext"):  # pragma: no branch
+        anext_type = type(builtins.anext(agen, None))
     try:
         # Clean up the asyncgen so it doesn't confuse any finalization hooks
         agen.aclose().send(None)  # type: ignore
@@ -358,6 +364,16 @@ def glue_builtins() -> None:
         raise RuntimeError(
             f"{aw!r} doesn't refer to anything with an ag_frame attribute"
         )
+
+    if anext_type is not None:  # pragma: no branch
+
+        @unwrap_stackitem.register(anext_type)
+        def unwrap_anext_awaitable(aw: Any) -> Any:
+            # anext(ait, default) wraps the awaitable returned by
+            # ait.__anext__() without exposing it; it is the first
+            # thing the wrapper refers to (the second is the default)
+            referents = gc.get_referents(aw)
+            return referents[0] if referents else None
 
     @unwrap_stackitem.register(coro_wrapper_type)
     def unwrap_coroutine_wrapper(aw: Any) -> Any:
